@@ -291,9 +291,11 @@ def splice_fn(a, item, uc, group_props, canary=False, drop_hints=()):
         for k, lst in uc.at.items():
             for (p, _) in lst:
                 all_props.update(p)
-        unit_safety = uc.safety if uc.safety is not None else sorted(all_props)
+        # a unit none of whose clauses names a property (a getter, a helper) supports EVERY property that runs this group:
+        # callers' proofs use its contract, so its failure must never be invisible ("*" = all properties of the run)
+        unit_safety = uc.safety if uc.safety is not None else (sorted(all_props) or ["*"])
     else:
-        unit_safety = []
+        unit_safety = ["*"]
     fnname = re.match(r"fn\s+(\w+)", sig).group(1)
     if canary:
         params = params.replace("fn " + fnname, "fn " + fnname + "__canary", 1)
